@@ -31,7 +31,7 @@ func C14() *runner.Property {
 			"(2) differential Parse/Skip vs the independent reader on random and near-valid byte strings (lengths 0-60+, version byte != 0, counts exceeding the length by one block): same accept/reject, same split; (3) PutBasic on a 0xFF-filled buffer; " +
 			"(5) write monitor on direct-driven real instances (see C01): every value a real LoadOnce changed in a native or shadow DBI is read by the independent reader and must carry the id of that LMDB transaction and the configured number of padding blocks; " +
 			"(4) every value the real merge routine writes over the C02 domain, with stored values carrying 1-3 extension blocks written by others and header padding on/off, is checked by the independent reader (version 0, reserved 0, flags within the synced set, " +
-			"transaction id of the writing transaction, extension count, deleted => empty value), and keep/replace decisions must not depend on the blocks. Non-trivial = distinct header images / distinct configurations.",
+			"transaction id of the writing transaction, extension count, deleted => empty value - also when the incoming deleted snapshot entry still carries a payload behind the flag), and keep/replace decisions must not depend on the blocks. Non-trivial = distinct header images / distinct configurations.",
 		Assumptions: []string{"the independent reader hdr.Read is written from docs/schema-native.md"},
 		BatchSize:   4,
 		CaseTimeout: 300e9,
@@ -60,6 +60,12 @@ func C14() *runner.Property {
 					continue
 				}
 				cs = append(cs, runner.MkCase("merge-"+c.Family, c.ID, c14Params{Part: "merge", C02: &p}))
+				// deleted snapshot entries that still carry a payload: what is stored must be a header-only marker
+				if p.Cfg.Format >= 2 && p.Part == "laws" && p.Slice == 0 {
+					q := p
+					q.Cfg.DelPayload = true
+					cs = append(cs, runner.MkCase("merge-delpayload", c.ID, c14Params{Part: "delpayload", C02: &q}))
+				}
 			}
 			nh := 60
 			if tier == "thorough" {
@@ -226,6 +232,47 @@ func runC14(c runner.Case, env *runner.Env) (res runner.Result) {
 		mergep.RunHist(*p.Hist, env, &res, "C14")
 		res.NonTrivial = res.Obs["written_values_checked"] > 0
 		res.Key = c.ID
+		return
+	case "delpayload":
+		// Only the well-formedness of what is written is judged here: such entries are outside the application
+		// contract ("the value MUST be reset"), so the order laws of C02 are not claimed for them.
+		cfg := p.C02.Cfg
+		foreignBits, delPayload = cfg.Foreign, true
+		defer func() { delPayload = false }()
+		lc := &lawsChecker{cfg: cfg, res: &res, r: rng.New(7), tie: map[string]Ver{}}
+		V := domainVersions()
+		for _, in := range V {
+			if !in.Del {
+				continue
+			}
+			for si := -1; si < len(V); si++ {
+				var stored []byte
+				ctx := "absent"
+				if si >= 0 {
+					stored = storedBytes(V[si], cfg, lc.r)
+					ctx = "stored " + V[si].String()
+				}
+				if in.TS == 0 && cfg.DefaultTS == 0 {
+					continue // no timestamp at all: rejected input
+				}
+				out, err := mergeReal(stored, toKV(in, cfg.Format), cfg)
+				if err != nil {
+					res.Violate("merge-error", fmt.Sprintf("%s: Merge of a deleted entry with payload failed: %v", ctx, err), map[string]any{"cfg": cfg})
+					continue
+				}
+				res.Count("merges", 1)
+				if out == nil || bytes.Equal(out, stored) {
+					continue
+				}
+				h, _, rerr := hdr.Read(out)
+				if rerr != nil {
+					res.Violate("result-unreadable", rerr.Error(), map[string]any{"cfg": cfg})
+					continue
+				}
+				lc.checkWritten(out, h, fmt.Sprintf("%s, incoming deleted entry %v carrying a payload", ctx, in), map[string]any{"cfg": cfg, "incoming": in, "result_hex": fmt.Sprintf("%x", out)})
+				res.NonTrivial = true
+			}
+		}
 		return
 	case "merge":
 		r2 := runC02(runner.Case{ID: c.ID, Family: c.Family, P: mustJSON(p.C02)}, env)
